@@ -42,6 +42,7 @@ fn main() {
         "access" => suites::access::main(seed, first, runs, &out, kv.get("sched")),
         "toggles" => suites::toggles::main(seed, first, runs, &out, kv.get("sched")),
         "config" => suites::config::main(seed, first, runs, &out, kv.get("sched")),
+        "registry" => suites::registry::main(seed, first, runs, &out, kv.get("sched")),
         "math" => suites::math::main(seed, first, runs, ops, &out, kv.get("kind").map(|s| s.as_str()).unwrap_or("all")),
         _ => {
             eprintln!("unknown suite {suite}");
